@@ -388,3 +388,19 @@ Proof.
   split; [vm_compute; reflexivity|].
   repeat constructor; cbn; intuition discriminate.
 Qed.
+
+(* dates 1970-01-01T00:00:10Z (twice, in two documents), ...:20Z; ranges [10s,20s) "a", [10s,+inf) "b" *)
+Example ex_date_docs : list doc :=
+  map (fun vs => flat_map (fun ns => index_terms 4 ns) vs) [[10000000000]; [10000000000; 20000000000]; []].
+Example ex_date_ranges : list drange :=
+  [ {| dr_name := [97]; dr_start := Some 10000000000; dr_end := Some 20000000000 |};
+    {| dr_name := [98]; dr_start := Some 10000000000; dr_end := None |} ].
+Example ex_date_facet :
+  date_facet ex_date_ranges 5 ex_date_docs =
+  Some {| fr_entries := [([98], 3); ([97], 2)]; fr_total := 5; fr_missing := 1; fr_other := 0 |} /\
+  NoDup (map dr_name ex_date_ranges) /\
+  Permutation ex_date_docs (rev ex_date_docs).
+Proof.
+  split; [vm_compute; reflexivity|]. split; [|apply Permutation_rev].
+  repeat constructor; cbn; intuition discriminate.
+Qed.
